@@ -32,6 +32,8 @@ pub struct InsnRecord {
     pub pc: usize,
     /// Stack depths before it runs.
     pub depths: Depths,
+    /// Registers A, B, C, D before it runs (only with `trace_registers`).
+    pub registers: Option<[Variant; 4]>,
 }
 
 #[derive(Clone, Debug)]
@@ -56,6 +58,8 @@ pub struct VerifOptions {
     pub budget: u64,
     /// Record an `InsnRecord` for every executed instruction.
     pub trace_instructions: bool,
+    /// Also record the registers in every `InsnRecord`.
+    pub trace_registers: bool,
     /// Record a `Dump` at every statement boundary (capped by `max_dumps`).
     pub dump_at_statements: bool,
     pub max_dumps: usize,
@@ -205,14 +209,23 @@ pub fn run_in_memory(
 
 /// Called by the fetch-execute loop before each instruction.
 /// Returns `true` if the program must stop because the budget is exhausted.
-pub fn before_instruction(state: &mut VerifState, pc: usize, depths: Depths) -> bool {
+pub fn before_instruction(
+    state: &mut VerifState,
+    pc: usize,
+    depths: Depths,
+    registers: Option<[Variant; 4]>,
+) -> bool {
     if state.options.budget > 0 && state.steps >= state.options.budget {
         state.budget_exhausted = true;
         return true;
     }
     state.steps += 1;
     if state.options.trace_instructions {
-        state.insns.push(InsnRecord { pc, depths });
+        state.insns.push(InsnRecord {
+            pc,
+            depths,
+            registers,
+        });
     }
     false
 }
